@@ -96,6 +96,10 @@ func VfC06Inbound() {
 		vf.Assert(src == peer && len(vf.Opens) == 1 && vf.Opens[0].OK && vf.Opens[0].KeyID == kTrafficIn, "delivered-without-unseal-under-sender-session")
 		pd := f.MessageData()
 		vf.Assert(len(pd) >= 44, "delivered-short-packet")
+		// "its inner IPv6 source and destination": what goes to the interface is an IPv6 packet. With
+		// another version nibble the interface reads other offsets than the ones the policy was
+		// evaluated on (an IPv4 header has its protocol at byte 9, its addresses at 12..20).
+		vf.Assert(pd[0]>>4 == 6, "delivered-packet-that-is-not-ipv6")
 		var is, idst [16]byte
 		copy(is[:], pd[8:24])
 		copy(idst[:], pd[24:40])
